@@ -1,5 +1,6 @@
 SPECIFICATION TSpec
 CONSTANTS Q = {}
+  QMax = 128
   TQ = {"MirrorPos3"}
 INVARIANTS Budget DeferFIFOOnce StallSilence SeqConsecutive TrainsAgree
 POSTCONDITION TraceAccepted
